@@ -8,7 +8,7 @@ or outside quotes (indentation, bare block names).
 from __future__ import annotations
 
 import ast
-from typing import Any, Dict, Iterator, List, Optional, Sequence, Tuple
+from typing import Any, Dict, Iterator, List, Optional, Sequence, Set, Tuple
 
 from .model import AnalysisError, Module, call_name, dotted, walk_no_nested
 
@@ -208,3 +208,250 @@ def conversion_of(node: ast.AST) -> Tuple[str, ast.AST]:
             return 'join', node
         return 'call:' + short, node
     return 'bare', node
+
+
+# ---------------------------------------------------------------------------------------------
+# string-set resolution (for keys that are parameters, loop variables over literal tables, ...)
+# ---------------------------------------------------------------------------------------------
+
+class KeyResolver:
+    """Resolves an expression used as a key/block name to the set of literal strings it may be.
+    A trailing '*' marks a prefix pattern (f'row{y}' -> 'row*')."""
+
+    def __init__(self, mod: Module, folder: Any = None) -> None:
+        self.mod = mod
+        self.folder = folder
+        self._callsites: Optional[Dict[str, List[Tuple[ast.AST, ast.Call]]]] = None
+
+    def callsites(self) -> Dict[str, List[Tuple[ast.AST, ast.Call]]]:
+        if self._callsites is None:
+            cs: Dict[str, List[Tuple[ast.AST, ast.Call]]] = {}
+            for qual, fns in self.mod.all_funcs().items():
+                for fn in fns:
+                    for c in walk_no_nested(fn):
+                        if isinstance(c, ast.Call):
+                            name = c.func.attr if isinstance(c.func, ast.Attribute) else (c.func.id if isinstance(c.func, ast.Name) else None)
+                            if name:
+                                cs.setdefault(name, []).append((fn, c))
+            self._callsites = cs
+        return self._callsites
+
+    def resolve(self, e: ast.AST, fn: ast.AST, depth: int = 0) -> Optional[Set[str]]:
+        """None = unknown."""
+        if depth > 5:
+            return None
+        if isinstance(e, ast.Constant) and isinstance(e.value, str):
+            return {e.value}
+        if isinstance(e, ast.IfExp):
+            a, b = self.resolve(e.body, fn, depth + 1), self.resolve(e.orelse, fn, depth + 1)
+            return None if a is None or b is None else a | b
+        if isinstance(e, ast.JoinedStr):
+            prefix = ''
+            for v in e.values:
+                if isinstance(v, ast.Constant):
+                    prefix += str(v.value)
+                else:
+                    inner = self.resolve(v.value, fn, depth + 1) if isinstance(v, ast.FormattedValue) else None
+                    if inner is not None and len(inner) < 16 and v is e.values[-1]:
+                        return {prefix + s for s in inner}
+                    return {prefix + '*'}
+            return {prefix}
+        if isinstance(e, ast.Name):
+            # loop variable over a literal / foldable iterable?
+            got = self._from_loops(e.id, fn, depth)
+            if got is not None:
+                return got
+            params = [a.arg for a in fn.args.args + fn.args.kwonlyargs] if hasattr(fn, 'args') else []
+            if e.id in params:
+                idx = params.index(e.id)
+                out: Set[str] = set()
+                fname = getattr(fn, 'name', None)
+                ndefs = sum(1 for q in self.mod.all_funcs() if q.split('.')[-1] == fname)
+                if ndefs != 1:
+                    return None        # ambiguous method name (e.g. `export`): receivers cannot be told apart syntactically
+                sites = self.callsites().get(fname, [])
+                if not sites:
+                    return None
+                is_method = bool(params) and params[0] in ('self', 'cls')
+                for caller, c in sites:
+                    arg = None
+                    pos = idx - (1 if is_method and isinstance(c.func, ast.Attribute) else 0)
+                    if 0 <= pos < len(c.args):
+                        arg = c.args[pos]
+                    for k in c.keywords:
+                        if k.arg == e.id:
+                            arg = k.value
+                    if arg is None:
+                        continue
+                    r = self.resolve(arg, caller, depth + 1)
+                    if r is None:
+                        return None
+                    out |= r
+                return out or None
+            # single local assignment
+            for n in walk_no_nested(fn):
+                if isinstance(n, ast.Assign) and len(n.targets) == 1 and isinstance(n.targets[0], ast.Name) and n.targets[0].id == e.id:
+                    return self.resolve(n.value, fn, depth + 1)
+            return None
+        return None
+
+    def _from_loops(self, name: str, fn: ast.AST, depth: int) -> Optional[Set[str]]:
+        for n in walk_no_nested(fn):
+            gens: List[Tuple[ast.AST, ast.AST]] = []
+            if isinstance(n, ast.For):
+                gens.append((n.target, n.iter))
+            elif isinstance(n, ast.comprehension):
+                gens.append((n.target, n.iter))
+            for tgt, it in gens:
+                pos = None
+                if isinstance(tgt, ast.Name) and tgt.id == name:
+                    pos = -1
+                elif isinstance(tgt, (ast.Tuple, ast.List)):
+                    for i, el in enumerate(tgt.elts):
+                        if isinstance(el, ast.Name) and el.id == name:
+                            pos = i
+                if pos is None:
+                    continue
+                # zip(lit, ...) / enumerate
+                if isinstance(it, ast.Call) and dotted(it.func) == 'zip' and pos >= 0 and pos < len(it.args):
+                    it, pos = it.args[pos], -1
+                vals = None
+                if isinstance(it, (ast.Tuple, ast.List)):
+                    vals = it.elts
+                    out: Set[str] = set()
+                    for el in vals:
+                        if pos >= 0:
+                            if isinstance(el, (ast.Tuple, ast.List)) and pos < len(el.elts):
+                                el = el.elts[pos]
+                            else:
+                                return None
+                        r = self.resolve(el, fn, depth + 1)
+                        if r is None:
+                            return None
+                        out |= r
+                    return out
+                if isinstance(it, ast.Name):
+                    try:
+                        tnode = self.mod.global_assign(it.id)
+                    except Exception:  # noqa: BLE001
+                        tnode = None
+                    if isinstance(tnode, ast.ListComp) and isinstance(tnode.elt, (ast.Tuple, ast.List)) and 0 <= pos < len(tnode.elt.elts):
+                        r = self.resolve(tnode.elt.elts[pos], self.mod.tree, depth + 1)
+                        if r is not None:
+                            return r
+                if isinstance(it, ast.Name) and self.folder is not None:
+                    try:
+                        table = self.folder.global_(it.id)
+                    except Exception:  # noqa: BLE001
+                        table = None
+                    if isinstance(table, (list, tuple)):
+                        out2: Set[str] = set()
+                        for row in table:
+                            v = row[pos] if pos >= 0 and isinstance(row, (list, tuple)) else row
+                            if isinstance(v, str):
+                                out2.add(v)
+                            else:
+                                return None
+                        return out2
+                if isinstance(it, ast.Call) and dotted(it.func) == 'range':
+                    return None
+        return None
+
+
+READER_METHODS = {'int', 'float', 'bool', 'vec', 'find_key', 'find_block', 'find_children', 'find_all', 'ensure_exists'}
+
+
+def reader_keys(fn: ast.AST, res: KeyResolver) -> Tuple[Set[str], List[str]]:
+    """String keys consumed by a KV-reading function (case kept; compare casefolded). Returns (keys, unknown notes)."""
+    keys: Set[str] = set()
+    unknown: List[str] = []
+
+    def add(e: ast.AST) -> None:
+        r = res.resolve(e, fn)
+        if r is None:
+            unknown.append(ast.unparse(e))
+        else:
+            keys.update(r)
+
+    for n in walk_no_nested(fn):
+        if isinstance(n, ast.Subscript) and isinstance(n.ctx, ast.Load):
+            sl = n.slice
+            if isinstance(sl, ast.Constant) and isinstance(sl.value, str):
+                keys.add(sl.value)
+            elif isinstance(sl, ast.Tuple) and sl.elts and isinstance(sl.elts[0], ast.Constant) and isinstance(sl.elts[0].value, str):
+                keys.add(sl.elts[0].value)
+        elif isinstance(n, ast.Call) and isinstance(n.func, ast.Attribute) and n.func.attr in READER_METHODS and n.args:
+            args = n.args if n.func.attr == 'find_all' else n.args[:1]
+            for a in args:
+                if isinstance(a, ast.Constant) and not isinstance(a.value, str):
+                    continue
+                add(a)
+        elif isinstance(n, ast.Call) and isinstance(n.func, ast.Attribute) and n.func.attr == 'startswith' and n.args \
+                and isinstance(n.args[0], ast.Constant) and isinstance(n.args[0].value, str):
+            recv = ast.unparse(n.func.value)
+            if recv.endswith('name') or recv == 'name':
+                keys.add(n.args[0].value + '*')
+        elif isinstance(n, ast.Compare) and len(n.ops) == 1:
+            l, r = n.left, n.comparators[0]
+            def is_name(x: ast.AST) -> bool:
+                s = ast.unparse(x)
+                return s == 'name' or s.endswith('.name') or s.endswith('.real_name')
+            if isinstance(n.ops[0], (ast.Eq, ast.NotEq)):
+                for a, b in ((l, r), (r, l)):
+                    if is_name(a) and isinstance(b, ast.Constant) and isinstance(b.value, str):
+                        keys.add(b.value)
+            elif isinstance(n.ops[0], (ast.In, ast.NotIn)):
+                if isinstance(l, ast.Constant) and isinstance(l.value, str) and not isinstance(r, (ast.Constant, ast.Tuple, ast.List, ast.Set)):
+                    keys.add(l.value)
+                elif is_name(l) and isinstance(r, (ast.Tuple, ast.List, ast.Set)):
+                    for el in r.elts:
+                        if isinstance(el, ast.Constant) and isinstance(el.value, str):
+                            keys.add(el.value)
+    return keys, unknown
+
+
+def writer_keys(fn: ast.AST, res: KeyResolver, include_return: bool = False) -> Tuple[Set[str], Set[str], List[str]]:
+    """(quoted keys, bare block names, unknown notes) emitted by a KV-writing function."""
+    keys: Set[str] = set()
+    blocks: Set[str] = set()
+    unknown: List[str] = []
+    for em in emits_in(fn):
+        for ln in em.lines:
+            if ln.strings:
+                first = ln.strings[0]
+                lit = ln.literal(0)
+                if lit is not None:
+                    keys.add(lit)
+                else:
+                    # literal prefix + slots
+                    expr = ast.JoinedStr(values=[ast.Constant(value=p.text) if p.kind == 'lit' else ast.FormattedValue(value=p.node, conversion=-1, format_spec=None) for p in first])
+                    r = res.resolve(expr, fn)
+                    if r is None:
+                        unknown.append('key ' + ''.join(p.text if p.kind == 'lit' else '{' + ast.unparse(p.node) + '}' for p in first))
+                    else:
+                        keys.update(r)
+            else:
+                # bare line: a block name or braces/indent
+                parts = [p for p in ln.bare if not (p.kind == 'lit' and not p.text.strip())]
+                text = ''.join(p.text for p in ln.bare if p.kind == 'lit').strip()
+                slots = [p for p in ln.bare if p.kind == 'expr']
+                if text in ('{', '}') or (not text and not slots):
+                    continue
+                word_slots = []
+                for p in slots:
+                    # indentation parameters are not names
+                    nm = ast.unparse(p.node)
+                    if nm.startswith('ind') or nm in ('cur_indent', 'indent'):
+                        continue
+                    word_slots.append(p)
+                if text.strip('{}').strip() and not word_slots:
+                    blocks.add(text.strip('{}').strip())
+                for p in word_slots:
+                    r = res.resolve(p.node, fn)
+                    if r is None and text.strip('{}').strip():
+                        blocks.add(text.strip('{}').strip() + '*')
+                    elif r is None:
+                        unknown.append('block ' + ast.unparse(p.node))
+                    else:
+                        blocks.update(x if not text.strip('{}').strip() else text.strip('{}').strip() + x for x in r)
+    return keys, blocks, unknown
